@@ -3,7 +3,7 @@
 import sys, os, shutil, json
 V = os.path.dirname(os.path.dirname(os.path.abspath(__file__)))
 i, change, needs, confirm, result = sys.argv[1:6]
-src = "/tmp/seed-%s/demo" % i; dst = os.path.join(V, "seeded", i + os.environ.get("SEED_SUFFIX", "")); os.makedirs(dst, exist_ok=True)
+src = os.environ.get("SEED_DIR_PREFIX", "/tmp/seed-") + "%s/demo" % i; dst = os.path.join(V, "seeded", i + os.environ.get("SEED_SUFFIX", "")); os.makedirs(dst, exist_ok=True)
 for f in ("patch.diff", "demo.cc", "NOTES.md"): shutil.copy(os.path.join(src, f), os.path.join(dst, f))
 test = confirm.split("existing test ")[1].split(" ")[0] if "existing test " in confirm else ""
 json.dump({"property": i, "change": change, "needs_to_manifest": needs,
